@@ -27,6 +27,11 @@ LOG = logging.getLogger(__name__)
 # Branch namespaces the robot is allowed to delete.
 OWNED_PREFIXES = ('w/', 'q/', 'tmp/')
 
+# Names of the branches removed in each working clone (see Branch.remove).
+# Keyed by the directory of the clone: branch objects, and the Repository
+# they point to, get deep-copied by the queue collection.
+_REMOVED_BRANCHES = defaultdict(set)
+
 
 class Repository(object):
     def __init__(self, url, mask_pwd=''):
@@ -57,6 +62,7 @@ class Repository(object):
             )
 
         rmtree(self.tmp_directory, onerror=onerror_cb)
+        _REMOVED_BRANCHES.pop(self.cmd_directory, None)
         self.tmp_directory = None
         self.cmd_directory = None
 
@@ -173,16 +179,21 @@ class Repository(object):
             raise PushFailedException(err) from err
 
     def _locally_deleted_branches(self):
-        """Robot-owned branches known on the remote but deleted locally."""
+        """Robot-owned branches that this clone removed (Branch.remove) and
+        that still exist on the remote.
+
+        A branch that is merely absent locally was not deleted here: it may
+        have been created on the remote by somebody else after the local
+        heads were taken from the mirror cache.
+
+        """
         fmt = "git for-each-ref --format='%%(refname)' %s"
         local = set(
             ref[len('refs/heads/'):]
             for ref in self.cmd(fmt, 'refs/heads').splitlines())
-        tracked = [
-            ref[len('refs/remotes/origin/'):]
-            for ref in self.cmd(fmt, 'refs/remotes/origin').splitlines()]
         self._get_remote_branches(force=True)
-        return [name for name in tracked
+        removed = _REMOVED_BRANCHES.get(self.cmd_directory, ())
+        return [name for name in sorted(removed)
                 if name.startswith(OWNED_PREFIXES) and
                 name not in local and name in self._remote_branches]
 
@@ -301,6 +312,7 @@ class Branch(object):
 
         if del_local:
             self.repo.cmd('git branch -D %s', self.name)
+            _REMOVED_BRANCHES[self.repo.cmd_directory].add(self.name)
 
         if not do_push:
             return
